@@ -334,7 +334,7 @@ def run_grid(acc, case, completeness=False):
     kept = []
     total = 0
     for cand in cd.enumerate_candidates(spec, wide=wide, limit=case.get("enum_limit", 8000), rng=rng,
-                                        task_lo=case.get("lo"), task_hi=case.get("hi")):
+                                        task_lo=case.get("lo"), task_hi=case.get("hi"), sel_wide=case.get("sel_wide")):
         total += 1
         status, rep_c = cd.classify(spec, cand)
         if case.get("only") and status not in case["only"]:
